@@ -1338,10 +1338,11 @@ func (s *ScopedKeyManager) extendAddresses(ns walletdb.ReadWriteBucket,
 		// proper derivation path so this information can be available
 		// to callers.
 		derivationPath := DerivationPath{
-			InternalAccount: account,
-			Account:         acctInfo.acctKeyPub.ChildIndex(),
-			Branch:          branchNum,
-			Index:           nextIndex - 1,
+			InternalAccount:      account,
+			Account:              acctInfo.acctKeyPub.ChildIndex(),
+			Branch:               branchNum,
+			Index:                nextIndex - 1,
+			MasterKeyFingerprint: acctInfo.masterKeyFingerprint,
 		}
 
 		// Create a new managed address based on the public or private
